@@ -34,6 +34,10 @@ RAW = [
  ("struct-nested-map-fresh", "make(type S2, make(struct { In struct { M map[string]int64 } })); a = make(S2); n = len(a.In.M); a.In.M[\"k\"] = 1; b = make(S2); return [n, len(b.In.M)]"),
  ("addr-nil-literal", "p(nil); q9 = &nil; *q9 = 5; x9 = nil; return 1"),
  ("addr-true-literal", "p(true); q8 = &true; *q8 = false; p(true); return true"),
+ ("switch-3-default-nomatch", "f = func(x) { switch x { case 1: return \"a\"  case 2: return \"b\"  case 3: return \"c\"  default: return \"d\" } }; p(f(9)); p(f(2)); return f(7)"),
+ ("switch-5-default-nomatch", "f = func(x) { switch x { case 1: return 1  case 2: return 2  case 3: return 3  case 4: return 4  case 5: return 5  default: return 0 } }; p(f(9)); return f(8)"),
+ ("switch-7-default-nomatch", "f = func(x) { switch x { case 1: return 1  case 2: return 2  case 3: return 3  case 4: return 4  case 5: return 5  case 6: return 6  case 7: return 7  default: return x * 2 } }; p(f(9)); return f(8)"),
+ ("switch-6-multi-default", "r = []; for x in [0, 9, 3] { switch x { case 1, 2: r += 1  case 3: r += 3  case 4: r += 4  case 5: r += 5  case 6: r += 6  case 7: r += 7  default: r += x } }; return r"),
  ("import-delete", "s = import(\"strings\"); t = import(\"strings\"); p(t.ToUpper(\"x\")); return s.ToUpper(\"y\")"),
  ("import-sort", "sort = import(\"sort\"); a = [3, 1, 2]; sort.Slice(a, func(i, j) { return a[i] < a[j] }); p(a); return a[0]"),
  ("varargs", "f = func(a, b...) { return len(b) + a }; p(f(1)); p(f(1, 2, 3)); x = [5, 6]; p(f(1, x...)); return f(0)"),
@@ -77,7 +81,19 @@ ENVPAIRS = [
 ]
 
 
+# two unrelated environments (core builtins imported into both): what runs in one is invisible in the other
+FRESHPAIRS = [
+ ("defined", "x = 1", "y = 2", "return [defined(\"x\"), defined(\"y\"), defined(\"zz\")]"),
+ ("defined-in-fn", "x = 1; f = func() { return defined(\"x\") }", "x2 = 1", "return [f(), defined(\"x2\")]"),
+ ("keys-typeof", "m = {\"a\": 1}", "m = 5", "return [len(keys(m)), typeOf(m), kindOf(m)]"),
+ ("values", "x = 1", "x = 2; q = 3", "return [x, q ?? \"noq\"]"),
+ ("types", "make(type T, 1)", "make(type T, \"s\"); make(type U, 1.5)", "r = 0; try { r = make(U) } catch e { r = \"undefined\" }; return [make(T), r]"),
+ ("println-rebind", "", "println = 5; range = 6", "return [typeOf(println), len(range(3))]"),
+]
+
+
 def cases():
     return ([{"id": "raw-" + n, "src": s} for n, s in RAW] +
             [{"id": "raw-" + n, "src": s, "variants": ["int64", "float64", "string"]} for n, s in VARIANT] +
-            [{"id": "raw-envpair-%s-%s" % (n, how), "src": b, "pair": {"s0": s0, "a": a, "how": how}} for n, s0, a, b in ENVPAIRS for how in ("Copy", "DeepCopy")])
+            [{"id": "raw-envpair-%s-%s" % (n, how), "src": b, "pair": {"s0": s0, "a": a, "how": how}} for n, s0, a, b in ENVPAIRS for how in ("Copy", "DeepCopy")] +
+            [{"id": "raw-envfresh-%s" % n, "src": b, "pair": {"s0": s0, "a": a, "how": "Fresh", "core": True}} for n, s0, a, b in FRESHPAIRS])
